@@ -16,7 +16,9 @@ import (
 	"reflect"
 	"sort"
 	"sync"
+	"sync/atomic"
 	"time"
+	"unsafe"
 )
 
 // ---------------------------------------------------------------- yield
@@ -289,4 +291,59 @@ func Recv2[T any](ch <-chan T) (T, bool) {
 			BlockHook()
 		}
 	}
+}
+
+// ---------------------------------------------------------------- goroutines
+
+// GoHook registers a function as a new task of the simulator's scheduler.
+var GoHook func(run func())
+
+// GoCall is `go fn(args...)`: function value and arguments are evaluated by the
+// caller now, as the go statement does; only the call itself happens in the new
+// goroutine, which the simulator schedules like any other task.
+func GoCall(fn interface{}, args ...interface{}) {
+	fv := reflect.ValueOf(fn)
+	ft := fv.Type()
+	in := make([]reflect.Value, len(args))
+	for i, a := range args {
+		var pt reflect.Type
+		switch {
+		case ft.IsVariadic() && i >= ft.NumIn()-1:
+			pt = ft.In(ft.NumIn() - 1).Elem()
+		default:
+			pt = ft.In(i)
+		}
+		if a == nil {
+			in[i] = reflect.Zero(pt)
+		} else {
+			in[i] = reflect.ValueOf(a)
+		}
+	}
+	run := func() { fv.Call(in) }
+	if h := GoHook; h != nil {
+		h(run)
+		return
+	}
+	go run()
+}
+
+func wgCounter(wg *sync.WaitGroup) int32 {
+	f := reflect.ValueOf(wg).Elem().FieldByName("state")
+	if !f.IsValid() || !f.CanAddr() {
+		return 0
+	}
+	p := (*uint64)(unsafe.Pointer(f.UnsafeAddr())) // atomic.Uint64: the value is its only sized field
+	return int32(atomic.LoadUint64(p) >> 32)
+}
+
+// WGWait is (*sync.WaitGroup).Wait that lets other tasks run while the counter is not zero.
+func WGWait(wg *sync.WaitGroup) {
+	if BlockHook == nil {
+		wg.Wait()
+		return
+	}
+	for wgCounter(wg) > 0 {
+		BlockHook()
+	}
+	wg.Wait() // does not block any more; keeps the real happens-before edge
 }
